@@ -198,6 +198,25 @@ pub fn observe(file: &AsepriteFile, want: &Want) -> Obs {
         if n <= 4096 && file.layers().skip(1).step_by(2).map(|l| l.id()).collect::<Vec<_>>() != o.layers_iter.iter().skip(1).step_by(2).copied().collect::<Vec<_>>() {
             return Some("skip(1).step_by(2) disagrees with the collected sequence".into());
         }
+        // a layer reached through an adaptor is the same layer as layer(id): same visibility, same parent
+        let attrs = |l: &Layer| (l.id(), l.is_visible(), l.parent().map(|p| p.id()), l.name().to_string());
+        for k in 0..(if n <= 512 { n.min(48) } else { 0 }) {
+            let direct = attrs(&file.layer(k as u32));
+            if file.layers().nth(k).map(|l| attrs(&l)) != Some(direct.clone()) {
+                return Some(format!("layers().nth({}) differs from layer({}) in visibility, parent or name", k, k));
+            }
+            let mut it = file.layers().skip(k);
+            if it.next().map(|l| attrs(&l)) != Some(direct.clone()) {
+                return Some(format!("layers().skip({}).next() differs from layer({}) in visibility, parent or name", k, k));
+            }
+            if k >= 1 {
+                let via: Vec<_> = file.layers().step_by(k).map(|l| attrs(&l)).collect();
+                let want: Vec<_> = (0..n).step_by(k).map(|i| attrs(&file.layer(i as u32))).collect();
+                if via != want {
+                    return Some(format!("layers().step_by({}) yields layers whose visibility, parent or name differ from layer(id)", k));
+                }
+            }
+        }
         None
     }) {
         panics.push(("layers() iterator".into(), msg));
